@@ -13,6 +13,7 @@ import hashlib
 import json
 import random
 import sys
+import time
 
 from sim import pelgen, world
 from sim.world import World, HarnessError
@@ -34,10 +35,11 @@ COMPONENTS = {"real": ["pel.peltool.peltool.main() and parsePEL, pel.datastream.
 ASSUMPTIONS = ["every byte of a generated PEL is covered by a declared length, so no proper prefix is a complete PEL",
                "step budget 2e6 + 4000*len(input) monitored events (function starts + jumps in repository code); normal decodes use < 5e4",
                "faults during fd.read() itself (EIO mid-read) are out of scope"]
-PROBES = ["prefix_in_header", "prefix_on_section_boundary", "flip_in_length_field", "outcome:cli:doc", "outcome:cli:error0",
+PROBES = ["big_padded_payload_plans", "prefix_in_header", "prefix_on_section_boundary", "flip_in_length_field", "outcome:cli:doc", "outcome:cli:error0",
           "outcome:cli:exit1", "garbage", "double"]
 
 BUDGET_BASE, BUDGET_PER_BYTE = 2_000_000, 4000
+CPU_BUDGET_S = 20      # per decode; second line of defence for time spent outside Python byte-code (regex, C loops)
 
 
 class StepBudgetExceeded(BaseException):
@@ -105,7 +107,21 @@ def gen_plan(rng, tier, run):
             "fseed": rng.randrange(1 << 30), "opts": rng.choice([["-E"], ["-E"], ["-E", "-P"], ["-E", "-x"]]),
             "nflips": 120 if tier == "quick" else 400, "registry": rng.random() < 0.3,
             # which single-PEL path of the CLI reads the damaged file
-            "cli": rng.choice(["-f", "-f", "-f", "-i", "-a", "--bmc-id"])}
+            "cli": rng.choice(["-f", "-f", "-f", "-i", "-a", "--bmc-id", "-l", "--plid", "--src", "-n"]),
+            "stdout_encoding": rng.choice(["utf-8", "utf-8", "ascii", "latin-1"]),
+            # one plan in 25: a PEL with a ~64 kB NUL/blank padded built-in text or JSON section (worst case for
+            # anything super-linear in the payload), few faults
+            "big": rng.random() < 0.04}
+    if plan["big"]:
+        pad = rng.choice([b"\x00", b" ", b"\x00 ", b"\n"])
+        body = rng.choice([b'{"k": "v"}', b"line one\nline two"])
+        n = rng.choice([20000, 60000, 65000])
+        payload = body + (pad * n)[:n - len(body)]
+        plan["recipe"]["creator"] = "O"
+        plan["recipe"]["sections"] = plan["recipe"]["sections"][:2] + [
+            {"kind": "ud", "id": "UD", "ver": 1, "subtype": 1 if body.startswith(b"{") else 3, "comp": 0x2000, "payload": payload.hex()}]
+        plan["prefixes"] = "sample"
+        plan["nflips"] = 6
     return plan
 
 
@@ -123,6 +139,10 @@ def fault_list(plan, data):
     else:
         ks = sorted(set(list(range(0, min(n, 80))) + [e + d for _, s, e in offs for d in (-2, -1, 0, 1, 4, 7, 8, 9) if 0 <= e + d < n]
                         + [rng.randrange(n) for _ in range(60)]))
+    if plan.get("big"):
+        ks = sorted(set([0, 47, 71, 72, 79, 80, 90] + [n - d for d in (1, 2, 3, 5, 100)]))
+        # the padded payload with only its last bytes damaged
+        faults += [{"kind": "flip", "off": n - d, "val": v} for d in (1, 2) for v in (0x41, 0xFF)]
     faults += [{"kind": "torn", "off": k} for k in ks]
     if plan["full_flips"]:
         for off in range(n):
@@ -132,9 +152,17 @@ def fault_list(plan, data):
     else:
         for _ in range(plan["nflips"]):
             faults.append(common.gen_junk(rng, data, offs, kinds=["flip"], fields=fields))
-    for _ in range(12):
+    # valid two-byte UTF-8 inside text fields (reference code, MTMS, symptom id, location codes)
+    text_starts = [o for o, w_, nme in fields if nme == "src.asciitype"]
+    for _ in range(10 if not plan.get("big") else 2):
+        if text_starts and rng.random() < 0.7:
+            off = rng.choice(text_starts) + rng.randrange(0, 31)
+        else:
+            off = rng.randrange(max(1, n - 1))
+        faults.append({"kind": "utf8", "off": off, "seq": rng.choice(["c3a9", "c2b5", "d0b6"])})
+    for _ in range(12 if not plan.get("big") else 2):
         faults.append(common.gen_junk(rng, data, offs, kinds=["garbage"]))
-    for _ in range(40):
+    for _ in range(40 if not plan.get("big") else 4):
         f = common.gen_junk(rng, data, offs, kinds=["flip"], fields=fields)
         f["then_torn"] = rng.randrange(f["off"] + 1, n + 1) if f["off"] + 1 <= n else n
         faults.append(f)
@@ -221,6 +249,7 @@ def execute(plan):
             if not ok or ref.exit != 0 or hits:
                 raise HarnessError("intact PEL does not decode cleanly: exit=%r stderr=%s hits=%s" % (ref.exit, ref.stderr[-300:], hits[:2]))
             max_steps = steps.count
+            max_cpu = 0.0
             gname = common.bmc_name(r)
             for f in faults:
                 bad = apply(data, f)
@@ -238,8 +267,18 @@ def execute(plan):
                 else:
                     # the damaged file is the only file of a PEL directory, stored under its BMC-style name
                     w.put("G/" + gname, bad)
-                    argv = ["-p", "@/G"] + {"-i": ["-i", "%08X" % r["eid"]], "-a": ["-a"], "--bmc-id": ["--bmc-id", str(r["bmc_id"])]}[cli] + plan["opts"]
-                res = w.run(argv)
+                    ps = [x for x in r["sections"] if x["kind"] == "src" and x["id"] == "PS"]
+                    argv = ["-p", "@/G"] + {"-i": ["-i", "%08X" % r["eid"]], "-a": ["-a"], "--bmc-id": ["--bmc-id", str(r["bmc_id"])],
+                                            "-l": ["-l"], "-n": ["-n"], "--plid": ["--plid", "%08X" % r["plid"]],
+                                            "--src": ["--src", ps[0]["ascii"][:2] if ps else "BD"]}[cli] + plan["opts"]
+                t_cpu = time.process_time()
+                res = w.run(argv, stdout_encoding=plan.get("stdout_encoding", "utf-8"))
+                cpu = time.process_time() - t_cpu
+                max_cpu = max(max_cpu, cpu)
+                if cpu > CPU_BUDGET_S:
+                    vio.append(V("hang", "peltool %s on %s (%d bytes) needed %.1f s of CPU time (budget %d s; an intact PEL of this size needs < 0.2 s)" % (
+                        cli, json.dumps(f), len(bad), cpu, CPU_BUDGET_S), f))
+                    break
                 evals += 1
                 events += len(res.events)
                 max_steps = max(max_steps, steps.count)
@@ -261,17 +300,30 @@ def execute(plan):
                 if res.stdout:
                     if res.stdout.strip() == "PEL not found" and plan.get("cli") in ("-i", "--bmc-id"):
                         pass
-                    elif hexmode:
+                    elif hexmode and cli != "-n":
                         blocks = common.split_hex_blocks(res.stdout)
                         produced_doc = True
                         if blocks is None or len(blocks) != 1 or blocks[0] != bad:
                             vio.append(V("stdout-malformed", "peltool -f -x on %s: stdout is not the dump of the input" % fdesc, f))
                     else:
                         ok, j = common.parse_json_stream(res.stdout)
-                        produced_doc = not (plan.get("cli") == "-a" and ok and j == [])
+                        empty = (cli == "-a" and j == []) or (cli in ("-l", "--plid", "--src") and j == {}) or \
+                            (cli == "-n" and isinstance(j, dict) and j.get("Number of PELs found") == 0)
+                        produced_doc = not (ok and empty)
                         if not ok:
                             vio.append(V("stdout-not-json", "peltool %s on %s: stdout is not one JSON document: %r" % (cli, fdesc, res.stdout[:200]), f))
-                if is_prefix and produced_doc:
+                # the summary modes read up to the end of the primary SRC only, the count mode only the two headers:
+                # a prefix that still holds all of that is legitimately reported
+                need = len(data)
+                if cli == "-n":
+                    need = 72
+                elif cli in ("-l", "--plid", "--src"):
+                    need = next((e for sid, st, e in offs if sid == "PS"), len(data))
+                if is_prefix and len(bad) >= need:
+                    is_prefix_cli = False
+                else:
+                    is_prefix_cli = is_prefix
+                if is_prefix_cli and produced_doc:
                     vio.append(V("prefix-decoded", "peltool -f decoded a %d-byte proper prefix of a %d-byte PEL (exit %r, -O=%s): %s" % (
                         len(bad), len(data), res.exit, opt == "O1", res.stdout[:150].replace("\n", " ")), f))
                 if hits:
@@ -334,6 +386,8 @@ def execute(plan):
             steps.stop()
     bump("max_steps_seen", 0)
     stats["max_steps_seen"] = max(stats.get("max_steps_seen", 0), max_steps)
+    if plan.get("big"):
+        bump("big_padded_payload_plans")
     seen, uniq = set(), []
     for v in vio:
         if v["key"] not in seen:
